@@ -461,6 +461,58 @@ def instances(dt_name: str, workdir: Path):
     add('block-row-diagonal-reduced', lambda: ((BlockRowOperator([A(), B()]) @ BlockDiagonalOperator([D3(), D3()])).reduce(), [x3(), ints((3,), dt, 4)]))
     add('block-diagonal-inverse', lambda: (BlockDiagonalOperator([DiagonalOperator(jnp.array([1.0, 2.0, 4.0], dtype=dt), in_structure=S((3,), dt)), HomothetyOperator(jnp.asarray(2.0, dtype=dt), S((2,), dt))]).I, [x3(), ints((2,), dt)]))
 
+    # --- parameter VARIANTS of the array-typed fields: 0-d, 1-element, rank-2, integer vs float, Python /
+    # NumPy scalars (Python-level conversions of a field inside mv - int(), float(), bool(), .item(),
+    # np.asarray - only fail when the field is a tracer, i.e. under the jit-as-argument route)
+    i32 = lambda *v: jnp.asarray(list(v), dtype=jnp.int32)  # noqa: E731
+    add('homothety-int-0d', lambda: (HomothetyOperator(jnp.asarray(2), S((2, 3), dt)), x23()))
+    add('homothety-python-int', lambda: (HomothetyOperator(3, S((2, 3), dt)), x23()))
+    add('homothety-numpy-scalar', lambda: (HomothetyOperator(np.float32(2), S((2, 3), dt)), x23()))
+    add('homothety-1elem', lambda: (HomothetyOperator(jnp.asarray([2.0], dtype=dt), S((2, 3), dt)), x23()))
+    add('homothety-1elem-rank2', lambda: (HomothetyOperator(jnp.asarray([[-2.0]], dtype=dt), S((2, 3), dt)), x23()))
+    add('diagonal-1elem', lambda: (DiagonalOperator(jnp.asarray([2.0], dtype=dt), in_structure=S((2, 3), dt)), x23()))
+    add('diagonal-int', lambda: (DiagonalOperator(i32(2, -1, 3), in_structure=S((2, 3), dt)), x23()))
+    add('diagonal-int-inverse', lambda: (DiagonalOperator(i32(2, -1, 4), in_structure=S((2, 3), dt)).I, x23()))
+    add('diagonal-1elem-inverse', lambda: (DiagonalOperator(jnp.asarray([2.0], dtype=dt), in_structure=S((2, 3), dt)).I, x23()))
+    add('diagonal-2d-axes-inverse', lambda: (DiagonalOperator(jnp.asarray([[1.0, 2.0], [4.0, -2.0], [0.5, 1.0], [2.0, 4.0]], dtype=dt), axis_destination=(2, 0), in_structure=S((2, 3, 4), dt)).I, x234()))
+    add('broadcast-diagonal-1elem', lambda: (BroadcastDiagonalOperator(jnp.asarray([[2.0]], dtype=dt), axis_destination=-1, in_structure=S((3,), dt)), x3()))
+    add('broadcast-diagonal-int', lambda: (BroadcastDiagonalOperator(jnp.asarray([[2, 1, 3], [1, -1, 2]]), axis_destination=-1, in_structure=S((3,), dt)), x3()))
+    add('broadcast-diagonal-1d', lambda: (BroadcastDiagonalOperator(jnp.asarray([2.0, 3.0], dtype=dt), axis_destination=-2, in_structure=S((3,), dt)), x3()))
+    add('dense-int', lambda: (DenseBlockDiagonalOperator(jnp.asarray([[1, 2, 0], [0, 1, -1]]), S((3,), dt), 'ij,j->i'), x3()))
+    add('dense-1elem', lambda: (DenseBlockDiagonalOperator(jnp.asarray([[2.0]], dtype=dt), S((1,), dt), 'ij,j->i'), ints((1,), dt, 2)))
+    add('dense-pytree-blocks', lambda: (DenseBlockDiagonalOperator({'a': ints((2, 3), dt, 1, 5), 'b': jnp.asarray([[2, 0, 1]])}, {'a': S((3,), dt), 'b': S((3,), dt)}, 'ij,j->i'), {'a': x3(), 'b': ints((3,), dt, 4)}))
+    add('index-0d', lambda: (IndexOperator(jnp.array(1), in_structure=S((2, 3), dt)), x23()))
+    add('index-ellipsis-0d', lambda: (IndexOperator((..., jnp.array(-2)), in_structure=S((2, 3), dt)), x23()))
+    add('index-1d-and-0d', lambda: (IndexOperator((jnp.array([0, 1, 1]), jnp.array(1)), in_structure=S((2, 3), dt)), x23()))
+    add('index-0d-and-0d', lambda: (IndexOperator((jnp.array(1), jnp.array(-1)), in_structure=S((2, 3), dt)), x23()))
+    add('index-int-slice-0d', lambda: (IndexOperator((1, slice(None), jnp.array(3)), in_structure=S((2, 3, 4), dt)), x234()))
+    add('index-0d-slice-1d', lambda: (IndexOperator((jnp.array(0), slice(1, 3), jnp.array([3, 0, 3])), in_structure=S((2, 3, 4), dt)), x234()))
+    add('index-0d-transpose', lambda: (IndexOperator((..., jnp.array(-2)), in_structure=S((2, 3), dt)).T, ints((2,), dt, 2)))
+    add('index-0d-stokes', lambda: (IndexOperator((jnp.array(0), slice(1, 3)), in_structure=stokes_s('IQU', (2, 3))), stokes_x('IQU', (2, 3))))
+    add('index-1elem', lambda: (IndexOperator(jnp.array([1]), in_structure=S((2, 3), dt)), x23()))
+    add('index-uint8', lambda: (IndexOperator((..., jnp.array([2, 0, 1], dtype=jnp.uint8)), in_structure=S((2, 3), dt)), x23()))
+    add('index-int64', lambda: (IndexOperator((..., jnp.array([2, 0, -1], dtype=jnp.int64)), in_structure=S((2, 3), dt)), x23()))
+    add('index-negative', lambda: (IndexOperator((jnp.array([-1, 0, -2]),), in_structure=S((2, 3), dt)), x23()))
+    add('index-numpy-array', lambda: (IndexOperator((..., np.array([2, 0, 1])), in_structure=S((2, 3), dt)), x23()))
+    add('index-numpy-0d', lambda: (IndexOperator((np.array(1), slice(None)), in_structure=S((2, 3), dt)), x23()))
+    half = lambda: jnp.asarray(0.5, dtype=dt)  # noqa: E731
+    add('qu-rotation-0d-IQU', lambda: (QURotationOperator(half(), stokes_s('IQU', (4,))), stokes_x('IQU', (4,))), exact=False)
+    add('qu-rotation-0d-zero-QU', lambda: (QURotationOperator(jnp.asarray(0.0, dtype=dt), stokes_s('QU', (4,))), stokes_x('QU', (4,))))
+    add('qu-rotation-python-float', lambda: (QURotationOperator(0.5, stokes_s('IQU', (4,))), stokes_x('IQU', (4,))), exact=False)
+    add('qu-rotation-1elem-QU', lambda: (QURotationOperator(jnp.asarray([0.5], dtype=dt), stokes_s('QU', (4,))), stokes_x('QU', (4,))), exact=False)
+    add('qu-rotation-rank2-IQUV', lambda: (QURotationOperator(jnp.asarray([[0.5, 0.1, 0.2], [0.3, 0.4, 0.6]], dtype=dt), stokes_s('IQUV', (2, 3))), stokes_x('IQUV', (2, 3))), exact=False)
+    add('qu-rotation-int-IQU', lambda: (QURotationOperator(i32(0, 1, 2, 3), stokes_s('IQU', (4,))), stokes_x('IQU', (4,))), exact=False)
+    add('qu-rotation-int-zero-IQU', lambda: (QURotationOperator(i32(0, 0, 0, 0), stokes_s('IQU', (4,))), stokes_x('IQU', (4,))))
+    add('qu-rotation-0d-transpose', lambda: (QURotationOperator(half(), stokes_s('IQU', (4,))).T, stokes_x('IQU', (4,))), exact=False)
+    add('hwp-create-0d-angle', lambda: (HWPOperator.create((4,), dt, 'IQU', angles=half()), stokes_x('IQU', (4,))), exact=False)
+    add('polarizer-create-0d-angle', lambda: (LinearPolarizerOperator.create((4,), dt, 'IQU', angles=half()), stokes_x('IQU', (4,))), exact=False)
+    add('polarizer-create-0d-angle-reduced', lambda: (LinearPolarizerOperator.create((4,), dt, 'IQU', angles=half()).reduce(), stokes_x('IQU', (4,))), exact=False)
+    for method in SymmetricBandToeplitzOperator.METHODS:
+        inexact = method in ('fft', 'overlap_save')
+        add(f'toeplitz-{method}-int-band', lambda method=method: (SymmetricBandToeplitzOperator(i32(4, 2, 1), S((9,), dt), method=method), ints((9,), dt, 2, 11)), exact=not inexact)
+        add(f'toeplitz-{method}-1elem-band', lambda method=method: (SymmetricBandToeplitzOperator(jnp.asarray([4.0], dtype=dt), S((9,), dt), method=method), ints((9,), dt, 2, 11)), exact=not inexact)
+        add(f'toeplitz-{method}-one-row-batch', lambda method=method: (SymmetricBandToeplitzOperator(jnp.asarray([[4.0, 1.0]], dtype=dt), S((2, 9), dt), method=method), ints((2, 9), dt, 2, 11)), exact=not inexact)
+
     # --- acquisition composite
     def projection():
         from furax.detectors import DetectorArray
@@ -490,20 +542,144 @@ def instances(dt_name: str, workdir: Path):
     return out
 
 
+VARIANT_TAGS = {
+    # field kind -> the variants of an array-typed field that the instance table must contain
+    'KArray': ('0d', '1elem', 'rank2', 'int', 'float'),
+    'KScalar': ('0d', '1elem', 'int', 'float', 'python'),
+    'KIndexTuple': ('0d', '1elem', 'rank2', 'int', 'mixed-0d'),
+    'KBoolArray': ('rank2',),
+}
+
+
+def variant_exemptions():
+    """(class, field, tag) -> a constructor call that MUST raise: the variant does not exist because the
+    class rejects it.  Probed on every run (a stale exemption is reported)."""
+    import jax
+    import jax.numpy as jnp
+
+    from furax._base.dense import DenseBlockDiagonalOperator
+    from furax._base.diagonal import BroadcastDiagonalOperator, DiagonalOperator
+    from furax._base.linear import PackOperator
+    from furax.operators.toeplitz import SymmetricBandToeplitzOperator
+
+    f32 = jnp.float32
+    s3 = jax.ShapeDtypeStruct((3,), f32)
+    diag0 = lambda: DiagonalOperator(jnp.asarray(2.0), in_structure=s3)  # noqa: E731
+    return {
+        ('DiagonalOperator', '_diagonal', '0d'): diag0,
+        ('DiagonalInverseOperator', '_diagonal', '0d'): diag0,  # only built from a DiagonalOperator
+        ('BroadcastDiagonalOperator', '_diagonal', '0d'): lambda: BroadcastDiagonalOperator(jnp.asarray(2.0), in_structure=s3),
+        ('DenseBlockDiagonalOperator', 'blocks', '0d'): lambda: DenseBlockDiagonalOperator(jnp.asarray(2.0), s3, ',j->j'),
+        ('DenseBlockDiagonalOperator', 'blocks', '1d'): lambda: DenseBlockDiagonalOperator(jnp.asarray([2.0, 1.0, 3.0]), s3, 'j,j->j'),
+        ('SymmetricBandToeplitzOperator', 'band_values', '0d'): lambda: SymmetricBandToeplitzOperator(jnp.asarray(2.0), s3, method='direct'),
+    }
+
+
+def field_variant_tags(kind, value) -> set[str]:
+    """Tags of the array(-like) leaves found under one field of one instance."""
+    import jax
+    import numpy as np
+
+    tags = set()
+    leaves = jax.tree.leaves(value, is_leaf=lambda z: z is None)
+    zero_d = other = False
+    for l in leaves:
+        if isinstance(l, (bool, int, float, complex)) and not isinstance(l, bool):
+            tags.add('python')
+            tags.add('int' if isinstance(l, int) else 'float')
+            other = True
+            continue
+        if not hasattr(l, 'shape') or not hasattr(l, 'dtype'):
+            other = other or l is not None
+            continue
+        k = np.dtype(l.dtype).kind
+        tags.add({'i': 'int', 'u': 'int', 'f': 'float', 'b': 'bool'}.get(k, k))
+        if len(l.shape) == 0:
+            tags.add('0d')
+            zero_d = True
+        else:
+            other = True
+            if int(np.prod(l.shape)) == 1:
+                tags.add('1elem')
+            if len(l.shape) >= 2:
+                tags.add('rank2')
+    if kind == 'KIndexTuple' and zero_d and (other or any(isinstance(i, (int, slice)) or i is Ellipsis for i in value)):
+        tags.add('mixed-0d')
+    return tags
+
+
 def run_coverage(case, workdir: Path):
-    """Which operator classes of the package occur in the instance table (alone or nested)?"""
+    """Which operator classes of the package occur in the instance table (alone or nested), and which
+    variants (0-d, 1-element, rank >= 2, integer / float, Python scalar) of every array-typed field?"""
+    import dataclasses
     import inspect
     import warnings
 
+    import jax
+
     import pytreereg as tr
 
+    from furax._base.core import AbstractLinearOperator
+
     seen: set[str] = set()
+    tags: dict[tuple[str, str], set[str]] = {}
+    tr.import_all()
+    _, finfo = tr.gen_fieldtable()
+    kinds = {(c, n): k for c, fs in finfo.items() for n, st, k in fs if not st}
+
+    def walk(o):
+        for f in dataclasses.fields(o):
+            v = getattr(o, f.name)
+            k = kinds.get((type(o).__name__, f.name))
+            if k in VARIANT_TAGS:
+                tags.setdefault((type(o).__name__, f.name), set()).update(field_variant_tags(k, v))
+            for leaf in jax.tree.leaves(v, is_leaf=lambda z: isinstance(z, AbstractLinearOperator)):
+                if isinstance(leaf, AbstractLinearOperator):
+                    walk(leaf)
+
     with warnings.catch_warnings():
         warnings.simplefilter('ignore')
         for name, (builder, _, _, _) in instances('f32', workdir).items():
-            seen |= classes_in(builder()[0])
-    concrete_classes = sorted(k.__name__ for k in tr.all_operator_classes() if not inspect.isabstract(k))
-    return {'covered': sorted(seen), 'missing': [n for n in concrete_classes if n not in seen]}
+            op = builder()[0]
+            seen |= classes_in(op)
+            walk(op)
+        exempt = variant_exemptions()
+        stale = []
+        for key, probe in exempt.items():
+            try:
+                probe()
+                stale.append(list(key))
+            except Exception:
+                pass
+    concrete = [k for k in tr.all_operator_classes() if not inspect.isabstract(k)]
+    gaps = []
+    for c in concrete:
+        if c.__name__ not in finfo:
+            gaps.append([c.__name__, '*', 'class absent from the field table'])
+        for n, st, k in finfo.get(c.__name__, []):
+            if st or k not in VARIANT_TAGS:
+                continue
+            have = tags.get((c.__name__, n), set())
+            for t in VARIANT_TAGS[k]:
+                if t not in have and (c.__name__, n, t) not in exempt:
+                    gaps.append([c.__name__, n, t])
+    return {
+        'covered': sorted(seen), 'missing': [k.__name__ for k in concrete if k.__name__ not in seen],
+        'variant_gaps': sorted(gaps), 'stale_exemptions': stale,
+        'variants': {f'{c}.{n}': sorted(t) for (c, n), t in sorted(tags.items())},
+    }
+
+
+def run_static(case):
+    """The static scans of tools/translate/pytreereg.py on the imported package: state besides the
+    dataclass fields (caches, attribute writes outside the constructor, mutable class / module attributes)
+    and Python-level conversions of traced array fields in the code reachable from mv."""
+    import pytreereg as tr
+
+    tr.import_all()
+    ops = tr.all_operator_classes()
+    _, finfo = tr.gen_fieldtable()
+    return {'hidden_state': tr.hidden_state_scan(ops), 'conversions': tr.conversion_scan(ops, finfo), 'classes': len(ops)}
 
 
 def shape_level_probe(workdir: Path):
@@ -573,7 +749,71 @@ def structure_str(s) -> str:
     return str(treedef) + ' ' + str([(tuple(l.shape), str(l.dtype)) for l in leaves])
 
 
+def hidden_attrs(op) -> list[str]:
+    """Instance attributes of the operator (and of every nested operator) that are not dataclass fields:
+    per-object state that flatten/unflatten, ==, and the field table do not see (caches)."""
+    import dataclasses
+
+    import jax
+
+    from furax._base.core import AbstractLinearOperator
+
+    out = set()
+
+    def walk(o):
+        names = {f.name for f in dataclasses.fields(o)}
+        for k in getattr(o, '__dict__', {}):
+            if k not in names:
+                out.add(f'{type(o).__name__}.{k}')
+        for f in dataclasses.fields(o):
+            v = getattr(o, f.name, None)
+            for leaf in jax.tree.leaves(v, is_leaf=lambda z: isinstance(z, AbstractLinearOperator)):
+                if isinstance(leaf, AbstractLinearOperator):
+                    walk(leaf)
+
+    walk(op)
+    return sorted(out)
+
+
+def shape_obs(tree):
+    import jax
+
+    leaves, treedef = jax.tree.flatten(tree)
+    return {'treedef': str(treedef), 'leaves': [{'shape': list(l.shape), 'dtype': str(l.dtype)} for l in leaves]}
+
+
+def as_matrix_obs(op, x):
+    """The dense matrix (built by tracing mv inside a fori_loop) applied by NumPy in float64 to the
+    flattened input."""
+    import jax
+    import numpy as np
+
+    m = op.as_matrix()
+    flat = np.concatenate([np.asarray(l, dtype=np.float64).ravel() for l in jax.tree.leaves(x)])
+    mat = np.asarray(m, dtype=np.float64)
+    if mat.ndim != 2 or mat.shape[1] != flat.size:
+        return {'asmatrix': {'shape': list(mat.shape), 'dtype': str(m.dtype), 'in_size': int(flat.size)}}
+    return {'asmatrix': {'shape': list(mat.shape), 'dtype': str(m.dtype), 'in_size': int(flat.size), 'mx_hex': (mat @ flat).tobytes().hex()}}
+
+
+# instances whose as_matrix is not an application of mv under a trace that the oracle can compare
+AS_MATRIX_SKIP: dict[str, str] = {}
+
+
 def run_routes(case, workdir: Path):
+    """All execution routes of one operator instance, in several ORDERS on the same object and on fresh
+    (separately built, equal) objects.  Hidden per-object or per-process state (caches filled during a
+    trace, lazily computed attributes) only shows in such sequences.
+
+      main   the first object: eager, __call__, jit over a closure, filtering jit, round trip, then eager
+             AGAIN and a second, independent jit over the same object (eager first, traced afterwards)
+      seqB   fresh object: jit over a closure FIRST, then eager, a second jit, the filtering jit, and the
+             round trip of the already traced object          (case['first'] == 'traced': before main,
+             so that it is also the first use of the class in the process)
+      seqC   fresh object: jax.eval_shape first (trace only), then eager, then jit
+      seqD   fresh object: as_matrix first (mv traced inside a fori_loop), then eager, then jit
+      seqE   fresh object: filtering jit with the operator as ARGUMENT first, then eager, then jit
+    """
     import warnings
 
     import equinox as eqx
@@ -588,18 +828,37 @@ def run_routes(case, workdir: Path):
         warnings.simplefilter('ignore')
         op, x = builder()
         out = {'class': type(op).__name__, 'classes': sorted(classes_in(op)), 'exact': exact, 'mask': mask, 'tol': tol, 'routes': {}}
+        objects = {'main': op}
+        hidden_before = hidden_attrs(op)
 
-        def route(name, f):
+        def route(name, f, obs=leaf_obs):
             try:
-                out['routes'][name] = leaf_obs(f())
+                out['routes'][name] = obs(f())
             except Exception as e:
                 out['routes'][name] = {'error': f'{type(e).__name__}: {str(e)[:300]}'}
 
+        def fresh(tag):
+            o, _ = builder()
+            objects[tag] = o
+            return o
+
+        fj = eqx.filter_jit(lambda o, v: o.mv(v))
+
+        def seq_b():
+            o = fresh('seqB')
+            route('seqB/1-jit-closure-first', lambda: jax.jit(lambda v: o.mv(v))(x))
+            route('seqB/2-eager', lambda: o.mv(x))
+            route('seqB/3-jit-closure-again', lambda: jax.jit(lambda v: o(v))(x))
+            if not mask:
+                route('seqB/4-filter-jit', lambda: fj(o, x))
+            route('seqB/5-roundtrip-eager', lambda: jax.tree.unflatten(*reversed(jax.tree.flatten(o))).mv(x))
+
+        if case.get('first') == 'traced':
+            seq_b()
         route('eager', lambda: op.mv(x))
         route('call', lambda: op(x))
         route('jit-closure', lambda: jax.jit(lambda v: op.mv(v))(x))
         if not mask:
-            fj = eqx.filter_jit(lambda o, v: o.mv(v))
             route('filter-jit', lambda: fj(op, x))
             # the same jitted function applied to a second, separately built, equal instance (an array
             # kept as static metadata makes this call fail or reuse a stale compilation)
@@ -615,6 +874,7 @@ def run_routes(case, workdir: Path):
         try:
             leaves, treedef = jax.tree.flatten(op)
             back = jax.tree.unflatten(treedef, leaves)
+            objects['roundtrip'] = back
             out['roundtrip'] = {
                 'same_type': type(back) is type(op),
                 'same_treedef': bool(jax.tree.structure(back) == treedef),
@@ -626,12 +886,39 @@ def run_routes(case, workdir: Path):
             route('roundtrip-jit', lambda: jax.jit(lambda v: back.mv(v))(x))
         except Exception as e:
             out['roundtrip'] = {'error': f'{type(e).__name__}: {str(e)[:300]}'}
+        # the first object again, after its traced uses
+        route('main/eager-again', lambda: op.mv(x))
+        route('main/jit-closure-again', lambda: jax.jit(lambda v: op(v))(x))
+        if case.get('first') != 'traced':
+            seq_b()
+        # eval_shape first
+        oc = fresh('seqC')
+        route('seqC/1-eval-shape-first', lambda: jax.eval_shape(lambda v: oc.mv(v), x), obs=shape_obs)
+        route('seqC/2-eager', lambda: oc.mv(x))
+        route('seqC/3-jit-closure', lambda: jax.jit(lambda v: oc.mv(v))(x))
+        # as_matrix first
+        if case.get('asm') and case['inst'] not in AS_MATRIX_SKIP:
+            od = fresh('seqD')
+            route('seqD/1-as-matrix-first', lambda: od, obs=lambda o: as_matrix_obs(o, x))
+            route('seqD/2-eager', lambda: od.mv(x))
+            route('seqD/3-jit-closure', lambda: jax.jit(lambda v: od.mv(v))(x))
+            if case.get('asm') == 'both':
+                route('main/as-matrix-after', lambda: op, obs=lambda o: as_matrix_obs(o, x))
+        # the operator as a jit ARGUMENT first
+        if not mask:
+            oe = fresh('seqE')
+            route('seqE/1-filter-jit-first', lambda: fj(oe, x))
+            route('seqE/2-eager', lambda: oe.mv(x))
+            route('seqE/3-jit-closure', lambda: jax.jit(lambda v: oe.mv(v))(x))
         # declared output structure vs what eager returned
         try:
             out['declared_out'] = structure_str(op.out_structure())
             out['eager_out'] = structure_str(jax.eval_shape(lambda: op.mv(x)))
         except Exception as e:
             out['declared_out'] = f'error {type(e).__name__}'
+        # per-object state left behind by the routes (informative; named in the oracle's message)
+        gained = sorted({a for o in objects.values() for a in hidden_attrs(o)} - set(hidden_before))
+        out['hidden_state'] = {'before': hidden_before, 'gained': gained}
         # field facts for the partition correspondence
         out['facts'] = field_facts(op)
     return out
@@ -664,16 +951,29 @@ def leaf_values(leaf):
     return np.frombuffer(bytes.fromhex(leaf['hex']), dtype=np.dtype(leaf['dtype'])).astype(np.float64)
 
 
+def _num(v):
+    """A float that went through lib.canon ('num/den' string) back to a float."""
+    from fractions import Fraction
+
+    return float(Fraction(v)) if isinstance(v, str) else v
+
+
+BITWISE_STEPS = ('call', 'roundtrip', 'main/eager-again', 'seqB/2-eager', 'seqB/5-roundtrip-eager', 'seqC/2-eager', 'seqD/2-eager', 'seqE/2-eager')
+
+
 def judge_routes(case, obs):
-    """The property on one instance: all routes agree in structure, shapes, dtypes and values."""
+    """The property on one instance: all routes, in every order and on every equal object, agree with
+    eager application in structure, shapes, dtypes and values."""
     import numpy as np
 
     if 'missing_instance' in obs:
         return f'no instance named {obs["missing_instance"]}'
     r = obs['routes']
     ref = r.get('eager')
+    hs = obs.get('hidden_state', {})
+    note = f' [the routes left per-object state behind: {hs["gained"]}]' if hs.get('gained') else ''
     if ref is None or 'error' in ref:
-        return f'eager application failed: {ref}'
+        return f'eager application failed: {ref}{note}'
     rt = obs.get('roundtrip', {})
     if 'error' in rt:
         return f'flatten/unflatten of the operator failed: {rt["error"]}'
@@ -682,27 +982,45 @@ def judge_routes(case, obs):
     for k in ('in_structure', 'out_structure'):
         if rt[k][0] != rt[k][1]:
             return f'round-tripped operator has a different {k}: {rt[k][1]} vs {rt[k][0]}'
+    order = ' (sequence order: ' + ' -> '.join(r) + ')'
     for name, o in r.items():
         if name == 'eager':
             continue
         if 'error' in o:
-            return f'route {name} failed: {o["error"]}'
+            return f'route {name} failed: {o["error"]}{note}{order}'
+        if 'asmatrix' in o:
+            am = o['asmatrix']
+            want = np.concatenate([leaf_values(l).ravel() for l in ref['leaves']]) if ref['leaves'] else np.zeros(0)
+            if am['shape'] != [int(want.size), am['in_size']] or 'mx_hex' not in am:
+                return f'route {name}: as_matrix has shape {am["shape"]}, expected {[int(want.size), am["in_size"]]}'
+            got = np.frombuffer(bytes.fromhex(am['mx_hex']), dtype=np.float64)
+            if obs['exact']:
+                if not np.array_equal(got, want):
+                    return f'route {name}: as_matrix() @ x differs from eager mv(x): {got[:8].tolist()} vs {want[:8].tolist()}{note}'
+                continue
+            tol = _num(obs.get('tol')) or max(TOL.get(l['dtype'], 1e-6) for l in ref['leaves'])
+            scale = max(1.0, float(np.max(np.abs(want)))) if want.size else 1.0
+            worst = float(np.max(np.abs(got - want))) if want.size else 0.0
+            if not worst <= tol * scale * 32:
+                return f'route {name}: |as_matrix() @ x - mv(x)| = {worst:.3g} exceeds {tol * scale * 32:.3g}{note}'
+            continue
         if o['treedef'] != ref['treedef']:
             return f'route {name} returned structure {o["treedef"]}, eager {ref["treedef"]}'
         for i, (a, b) in enumerate(zip(ref['leaves'], o['leaves'])):
             if a['shape'] != b['shape'] or a['dtype'] != b['dtype']:
                 return f'route {name} leaf {i}: shape/dtype {b["shape"]} {b["dtype"]}, eager {a["shape"]} {a["dtype"]}'
-            if a['hex'] == b['hex']:
+            if 'hex' not in b or a['hex'] == b['hex']:
                 continue
             va, vb = leaf_values(a), leaf_values(b)
-            if obs['exact'] or name in ('call', 'roundtrip'):
-                # same program on the same data (call, eager round trip) or exact arithmetic: bit for bit
-                return f'route {name} leaf {i}: values differ bit-wise from eager: {vb[:8].tolist()} vs {va[:8].tolist()}'
-            tol = obs.get('tol') or TOL.get(a['dtype'], 1e-6)
+            if obs['exact'] or name in BITWISE_STEPS:
+                # same program on the same data (call, eager on an equal object / after a round trip) or
+                # exact arithmetic: bit for bit
+                return f'route {name} leaf {i}: values differ bit-wise from eager: {vb[:8].tolist()} vs {va[:8].tolist()}{note}'
+            tol = _num(obs.get('tol')) or TOL.get(a['dtype'], 1e-6)
             scale = max(1.0, float(np.max(np.abs(va)))) if va.size else 1.0
             worst = float(np.max(np.abs(va - vb))) if va.size else 0.0
             if not worst <= tol * scale * 8:
-                return f'route {name} leaf {i}: |difference| {worst:.3g} exceeds {tol * scale * 8:.3g}: {vb[:6].tolist()} vs {va[:6].tolist()}'
+                return f'route {name} leaf {i}: |difference| {worst:.3g} exceeds {tol * scale * 8:.3g}: {vb[:6].tolist()} vs {va[:6].tolist()}{note}'
     return None
 
 
@@ -736,29 +1054,33 @@ def worker_main():
 
 
 _workers: dict = {}
+_locks: dict = {}
 _lock = threading.Lock()
 
 
-def worker(x64: bool):
-    if x64 not in _workers:
-        env = dict(os.environ)
-        env['JAX_ENABLE_X64'] = '1' if x64 else '0'
-        env['PYTHONPATH'] = str(lib.REPO / 'src')
-        env['JAX_PLATFORMS'] = 'cpu'
-        p = subprocess.Popen([sys.executable, str(Path(__file__).resolve()), '--worker'], stdin=subprocess.PIPE, stdout=subprocess.PIPE, stderr=subprocess.DEVNULL, text=True, env=env)
-        _workers[x64] = p
-        atexit.register(p.kill)
-    return _workers[x64]
-
-
-def ask(x64: bool, req: dict):
+def worker(slot):
+    """slot = (x64, k): k-th worker process of that mode."""
     with _lock:
-        p = worker(x64)
+        if slot not in _workers:
+            env = dict(os.environ)
+            env['JAX_ENABLE_X64'] = '1' if slot[0] else '0'
+            env['PYTHONPATH'] = str(lib.REPO / 'src')
+            env['JAX_PLATFORMS'] = 'cpu'
+            p = subprocess.Popen([sys.executable, str(Path(__file__).resolve()), '--worker'], stdin=subprocess.PIPE, stdout=subprocess.PIPE, stderr=subprocess.DEVNULL, text=True, env=env)
+            _workers[slot] = p
+            _locks[slot] = threading.Lock()
+            atexit.register(p.kill)
+        return _workers[slot], _locks[slot]
+
+
+def ask(x64: bool, req: dict, k: int = 0):
+    p, lock = worker((bool(x64), k))
+    with lock:
         p.stdin.write(json.dumps(req) + '\n')
         p.stdin.flush()
         line = p.stdout.readline()
     if not line:
-        raise RuntimeError('x64 worker died')
+        raise RuntimeError('worker process died')
     res = json.loads(line)
     if 'err' in res:
         raise RuntimeError(res['err'] + '\n' + res.get('tb', ''))
@@ -815,7 +1137,8 @@ class Check(PropertyCheck):
         self._tr: dict | None = None
         self._obs: dict = {}
         self._prefetched: dict = {}
-        self._prefetch_thread = None
+        self._prefetch_threads = None
+        self._assigned: set = set()
         self._cases: list = []
         self.stats = {}
 
@@ -832,6 +1155,8 @@ class Check(PropertyCheck):
         ids = {k: repr(o) for k, o in self._tr['objects'].items()}
         if ids != {1: repr(named_object('f64'))}:
             raise Tie(f'default objects of the registered constructors changed: {ids} (harness maps id 1 to numpy.float64)')
+        self.stats['hidden_state'] = self._tr['hidden_state']
+        self.stats['python_level_conversions_of_traced_fields'] = self._tr['conversions']
 
     def gen_files(self):
         return ['PytreeReg.v', 'FieldTable.v']
@@ -941,17 +1266,24 @@ class Check(PropertyCheck):
         quick = self.tier == 'quick'
         names = self.instance_names()
         cases = []
+        # `first`: which route touches a fresh object (and, in the x64-on worker processes, the class in
+        # the process) first - eager or a trace; `asm`: as_matrix sequences ('first': on a fresh object
+        # before any other use; 'both': also on the first object after all its other routes)
         for n in names:
-            cases.append({'kind': 'routes', 'inst': n, 'dt': 'f32', 'x64': False})
-            cases.append({'kind': 'routes', 'inst': n, 'dt': 'f64', 'x64': True})
-            if not quick or n.startswith(('toeplitz', 'dense', 'index-int-array', 'diagonal-l', 'qu-rotation-generic-IQU', 'inverse', 'composition')):
-                cases.append({'kind': 'routes', 'inst': n, 'dt': 'f32', 'x64': True})
+            cases.append({'kind': 'routes', 'inst': n, 'dt': 'f32', 'x64': False, 'first': 'eager', 'asm': 'first' if quick else 'both'})
+            cases.append({'kind': 'routes', 'inst': n, 'dt': 'f64', 'x64': True, 'first': 'traced', 'asm': False if quick else 'both'})
+            if not quick or n.startswith((
+                'toeplitz-dense', 'toeplitz-fft', 'toeplitz-overlap', 'dense', 'index-int-array', 'index-0d', 'index-1d-and', 'diagonal-l',
+                'diagonal-int', 'qu-rotation-generic-IQU', 'qu-rotation-0d', 'qu-rotation-int', 'homothety-int', 'inverse', 'composition',
+            )):
+                cases.append({'kind': 'routes', 'inst': n, 'dt': 'f32', 'x64': True, 'first': 'eager', 'asm': False if quick else 'first'})
         return cases
 
     def cases(self):
         cases = self.reg_cases() + self.route_cases()
         cases += [{'kind': 'config', 'throw': t, 'options': o, 'x64': False} for t in (False, True) for o in (False, True)]
         cases.append({'kind': 'coverage', 'x64': x64_mode()})
+        cases.append({'kind': 'static', 'x64': x64_mode()})
         # landscapes under x64 as well (action: full/normal/world2index in float64)
         for c in [c for c in cases if c['kind'] == 'reg'][:: (9 if self.tier == 'quick' else 2)]:
             if c['cls'] in ('HealpixLandscape', 'FrequencyLandscape'):
@@ -983,46 +1315,64 @@ class Check(PropertyCheck):
     def nontrivial(self, case, obs):
         if case['kind'] == 'reg':
             return isinstance(obs, dict) and obs.get('ctor') == 'ok'
-        if case['kind'] in ('config', 'coverage'):
+        if case['kind'] in ('config', 'coverage', 'static'):
             return False
         return isinstance(obs, dict) and 'routes' in obs
 
     # ---- implementation ----------------------------------------------------------------------
-    def _start_prefetch(self):
-        """The x64-on cases run in the worker subprocess while this process does the x64-off ones."""
-        if self._prefetch_thread is not None or x64_mode():
-            return
-        todo = [c for c in self._cases if c.get('x64')]
+    N_OTHER_MODE = 4  # worker processes for the cases of the other x64 mode
+    N_SAME_MODE = 2   # worker processes sharing the cases of this process's mode
 
-        def go():
+    def _start_prefetch(self):
+        """The cases of the other x64 mode run in worker subprocesses while this process does (its share
+        of) the cases of its own mode.  Every process executes its cases in list order."""
+        if self._prefetch_threads is not None:
+            return
+        mode = x64_mode()
+        plan: dict = {}
+        other = [c for c in self._cases if bool(c.get('x64', False)) != mode]
+        for i, c in enumerate(other):
+            plan.setdefault((not mode, i % self.N_OTHER_MODE), []).append(c)
+        same = [c for c in self._cases if bool(c.get('x64', False)) == mode and c['kind'] == 'routes']
+        for i, c in enumerate(same):
+            if self.N_SAME_MODE and i % (self.N_SAME_MODE + 1):
+                plan.setdefault((mode, i % (self.N_SAME_MODE + 1)), []).append(c)
+        self._assigned = {lib.case_id(c) for todo in plan.values() for c in todo}
+
+        def go(slot, todo):
             for c in todo:
                 try:
-                    self._prefetched[lib.case_id(c)] = ask(True, {'op': c['kind'], 'case': lib.pub(c)})
+                    self._prefetched[lib.case_id(c)] = ask(slot[0], {'op': c['kind'], 'case': lib.pub(c)}, slot[1])
                 except Exception as e:
                     self._prefetched[lib.case_id(c)] = {'harness_error': f'{type(e).__name__}: {e}'}
 
-        self._prefetch_thread = threading.Thread(target=go, daemon=True)
-        self._prefetch_thread.start()
+        self._prefetch_threads = [threading.Thread(target=go, args=(slot, todo), daemon=True) for slot, todo in plan.items()]
+        for t in self._prefetch_threads:
+            t.start()
 
     def run_impl(self, case):
         want = bool(case.get('x64', False))
         cid = lib.case_id(case)
-        if want != x64_mode():
+        if self._cases:
             self._start_prefetch()
-            if any(c is case or lib.case_id(c) == cid for c in self._cases) and self._prefetch_thread is not None:
-                import time
+        if cid in self._assigned:
+            import time
 
-                while cid not in self._prefetched and self._prefetch_thread.is_alive():
-                    time.sleep(0.02)
+            while cid not in self._prefetched and any(t.is_alive() for t in self._prefetch_threads):
+                time.sleep(0.02)
             obs = self._prefetched.get(cid)
             if obs is None:
                 obs = ask(want, {'op': case['kind'], 'case': lib.pub(case)})
+        elif want != x64_mode():
+            obs = ask(want, {'op': case['kind'], 'case': lib.pub(case)})
         elif case['kind'] == 'reg':
             obs = lib.canon(run_reg(case))
         elif case['kind'] == 'config':
             obs = lib.canon(run_config(case))
         elif case['kind'] == 'coverage':
             obs = lib.canon(run_coverage(case, self.workdir))
+        elif case['kind'] == 'static':
+            obs = lib.canon(run_static(case))
         else:
             obs = lib.canon(run_routes(case, self.workdir))
         self._obs[cid] = obs
@@ -1030,7 +1380,7 @@ class Check(PropertyCheck):
 
     # ---- model -------------------------------------------------------------------------------
     def model_term(self, case):
-        if case['kind'] in ('config', 'coverage'):
+        if case['kind'] in ('config', 'coverage', 'static'):
             return None
         if case['kind'] == 'reg':
             args = clist(case['args'], coq_val)
@@ -1075,6 +1425,25 @@ class Check(PropertyCheck):
         if case['kind'] == 'coverage':
             if obs.get('missing'):
                 return f'operator classes of the package without an instance in harness/c18.py (four-route test does not cover them): {obs["missing"]}'
+            if obs.get('variant_gaps'):
+                return (
+                    'array-typed operator fields without the required parameter variants in harness/c18.py (0-d, 1-element, '
+                    f'rank-2, integer/float; Python-level conversions inside mv are only exercised by them): {obs["variant_gaps"]}'
+                )
+            if obs.get('stale_exemptions'):
+                return f'variant exemptions whose constructor call no longer raises (add the variant as an instance): {obs["stale_exemptions"]}'
+            return None
+        if case['kind'] == 'static':
+            if obs.get('hidden_state'):
+                return (
+                    'operator classes carry state besides their dataclass fields, so the result of a route may depend on '
+                    f'which routes ran before on the same object (a value cached during a trace is a leaked tracer): {obs["hidden_state"]}'
+                )
+            if obs.get('conversions'):
+                return (
+                    'array fields that Model.PytreeReg.model_uses classifies value-level are converted at Python level in the code '
+                    f'reachable from mv (raises when the operator is a jit ARGUMENT and the field a tracer): {obs["conversions"]}'
+                )
             return None
         if case['kind'] == 'config':
             if not obs.get('registered'):
@@ -1101,6 +1470,8 @@ class Check(PropertyCheck):
             return f'roundtrip-{case["cls"]}-{obs.get("back")}'
         if case['kind'] == 'routes':
             return f'routes-{case["inst"]}'
+        if case['kind'] == 'static':
+            return 'static-scan'
         return case.get('key')
 
     def shrink(self, case, failing):
@@ -1146,7 +1517,7 @@ class Check(PropertyCheck):
             seen.update(obs['classes'])
             nroutes += len(obs['routes'])
             nexact += bool(obs['exact'])
-            nvalues += sum(len(l['hex']) // (2 * int(l['dtype'][-2:]) // 8) for r in obs['routes'].values() if 'leaves' in r for l in r['leaves'])
+            nvalues += sum(len(l['hex']) // (2 * int(l['dtype'][-2:]) // 8) for r in obs['routes'].values() if 'leaves' in r for l in r['leaves'] if 'hex' in l)
             key = ('x64-on' if c['x64'] else 'x64-off') + '/' + c['dt']
             per_mode[key] = per_mode.get(key, 0) + 1
             if obs['mask']:
